@@ -293,6 +293,17 @@ def main():
     if len(sys.argv) >= 3 and sys.argv[1] == "--replay":
         build()
         rf = json.load(open(sys.argv[2]))
+        if rf.get("pair"):
+            job = {"engine": rf["engine"], "prop": rf["property"], "profile": rf["profile"], "tier": rf["tier"], "base": rf["base"], "worker": 0, "workers": 1,
+                   "indices": rf["pair"], "budget_s": 0, "opts": rf.get("opts", []), "watchdog_s": 60}
+            recs, rc, err = run_worker(job, timeout=300)
+            outs = [x.get("outcome") for x in recs if x.get("type") == "end"]
+            for i, o in zip(rf["pair"], outs):
+                print("run %d: %s" % (i, o))
+            if len(outs) == 2 and outs[0] != outs[1]:
+                print("VIOLATION property=%s replay=%s" % (rf["property"], sys.argv[2]))
+                sys.exit(1)
+            sys.exit(0)
         end, rc, err = replay_once(sys.argv[2], rf.get("property", ""), full=True)
         if end is None:
             print(err[-4000:])
@@ -355,8 +366,8 @@ def main():
                     outs.setdefault(r["outcome"], r)
                 if len(outs) > 1 and not any(r.get("counters", {}).get("worlds_cancelled") for r in rs):
                     rr = sorted(outs.values(), key=lambda r: r["index"])
-                    v = {"prop": prop, "rule": "outcome-depends-on-schedule", "seq": 0,
-                         "msg": "world %s: different final outcomes under different schedules: %s" % (key[1], " | ".join(sorted(outs)))}
+                    v = {"prop": prop, "rule": "outcome-depends-on-schedule", "seq": 0, "pair": [rr[0]["index"], rr[-1]["index"]],
+                         "msg": "world %s: different recorded outcomes for the same world (runs %d and %d): %s" % (key[1], rr[0]["index"], rr[-1]["index"], " | ".join(sorted(outs)))}
                     part = [p for p in parts if p["profile"] == key[0]][0]
                     violations.append((part, rr[-1], v))
 
@@ -386,6 +397,25 @@ def main():
                 continue
             unknown.sort(key=lambda x: (x[1].get("nchoices", 0), x[1]["index"]))
             part, r, v = unknown[0]
+            if v.get("pair"):
+                # a violation that is a disagreement between two runs: the replay is the pair
+                job = Batch(prop, part, tier, base, 0, 1).job(0, count=2)
+                job["indices"], job["budget_s"] = v["pair"], 0
+                outs = []
+                for attempt in range(2):
+                    recs, rc, err = run_worker(job, timeout=300)
+                    outs.append(tuple(x.get("outcome") for x in recs if x.get("type") == "end"))
+                if len(outs[0]) != 2 or outs[0] != outs[1] or outs[0][0] == outs[0][1]:
+                    harness_errors.append({"type": "non-reproducible", "rule": rule, "pair": v["pair"], "got": outs})
+                    continue
+                path = os.path.join(OUT, "replays", prop, "%s-%d-%d.json" % (rule, v["pair"][0], v["pair"][1]))
+                write_replay(path, {"engine": part["engine"], "property": prop, "profile": part["profile"], "tier": tier, "base": base,
+                                    "pair": v["pair"], "outcomes": list(outs[0]), "violation": v, "opts": part.get("opts", [])})
+                print("violation: rule=%s %s" % (rule, v["msg"]), flush=True)
+                print("VIOLATION property=%s replay=%s" % (prop, path), flush=True)
+                reported.append({"rule": rule, "replay": path, "msg": v["msg"], "count": len(unknown)})
+                exit_code = 1
+                continue
             rf = {"engine": part["engine"], "property": prop, "profile": part["profile"], "tier": tier, "index": r["index"],
                   "seed": r["seed"], "choices": r.get("choices") or [], "violation": v, "log_hash": r.get("hash", ""), "opts": part.get("opts", [])}
             path = os.path.join(OUT, "replays", prop, "%s-%d.json" % (rule, r["index"]))
